@@ -115,7 +115,8 @@ def real_lines(ctx, rnd):
                 for k in (1, 2):
                     files = [('t.c', text), ('d/u.c', 'keep;\n')][:k]
                     sc = {'files': files, 'rules': rules, 'passes': [], 'cfg': {'N': rnd.choice([1, 2, 3]), 'no_cache': True},
-                          'sched': [rnd.randint(0, 7) for _ in range(20)], 'real_pass': f'lines::{arg}'}
+                          'sched': [rnd.randint(0, 7) for _ in range(20)], 'real_pass': f'lines::{arg}',
+                          'skip_check': rnd.random() < 0.4}      # --skip-interestingness-test-check only skips the START-UP check
                     p = LinesPass(arg, {'topformflat': standin})
                     p.max_transforms = None
                     o = driver.run_scenario(sc, ctx.tmp, real_passes=[p])
